@@ -884,6 +884,23 @@ class Parser:
                 it = self.parse_item()
                 stmts.append(("item", it))
                 continue
+            if self.peek()[0] == "ident" and self.peek()[1] in ("if", "match", "for", "while", "loop") or self.at("{") or \
+                    (self.at("unsafe") and self.at("{", 1)):
+                # block-like expression in statement position ends the statement (a following `(`/`[`/`-` starts a
+                # new one); only `.method()` / `?` continue it
+                e = self._primary(False)
+                if self.at(".") or self.at("?"):
+                    e = self._postfix(e, False)
+                    if self.peek()[0] == "punct" and self.peek()[1] in ASSIGN_OPS:
+                        op = self.next()[1]
+                        e = ("assign", op, e, self._assign(False))
+                if self.eat(";"):
+                    stmts.append(("expr", e))
+                elif self.at("}"):
+                    tail = e
+                else:
+                    stmts.append(("expr", e))
+                continue
             e = self.parse_expr()
             if self.eat(";"):
                 stmts.append(("expr", e))
